@@ -30,6 +30,9 @@ var solvers = []solverDef{
 	{"z3-new", func(f string, t, seed int) []string {
 		return []string{"z3-new", fmt.Sprintf("-T:%d", t), fmt.Sprintf("smt.random_seed=%d", seed), fmt.Sprintf("sat.random_seed=%d", seed), f}
 	}},
+	{"z3-new/noauto", func(f string, t, seed int) []string {
+		return []string{"z3-new", fmt.Sprintf("-T:%d", t), "smt.auto_config=false", fmt.Sprintf("smt.random_seed=%d", seed), f}
+	}},
 	{"z3", func(f string, t, seed int) []string {
 		return []string{"z3", fmt.Sprintf("-T:%d", t), fmt.Sprintf("smt.random_seed=%d", seed), f}
 	}},
@@ -112,18 +115,22 @@ func raceSolvers(file string, timeoutS, seed int, only string) *SolveResult {
 }
 
 // renderBatch renders the whole function as one incremental script.
-func (fc *FnCtx) renderBatch(perQueryMs int) string {
+func (fc *FnCtx) renderBatch(chunk, nchunks int) string {
 	var b strings.Builder
 	b.WriteString(fc.preamble())
+	k := 0
 	for _, it := range fc.script {
 		if it.ob == nil {
 			b.WriteString(it.cmd + "\n")
 			continue
 		}
 		ob := it.ob
-		b.WriteString("(push 1)\n")
-		fmt.Fprintf(&b, "(assert (and %s (not %s)))\n", ob.Guard, ob.Cond)
-		fmt.Fprintf(&b, "(echo \"@@ %s\")\n(check-sat)\n(pop 1)\n", ob.Name)
+		k++
+		if ob.Result == nil && k%nchunks == chunk {
+			b.WriteString("(push 1)\n")
+			fmt.Fprintf(&b, "(assert (and %s (not %s)))\n", ob.Guard, ob.Cond)
+			fmt.Fprintf(&b, "(echo \"@@ %s\")\n(check-sat)\n(pop 1)\n", ob.Name)
+		}
 		if !ob.Cover {
 			if c := implies(ob.Guard, ob.Cond); c != "true" {
 				b.WriteString("(assert " + c + ")\n")
@@ -159,6 +166,9 @@ func (fc *FnCtx) renderOne(target *Obligation, withModel bool) string {
 	return b.String()
 }
 
+// globalSem bounds the number of solver batch processes across all functions.
+var globalSem = make(chan struct{}, 12)
+
 type solveOpts struct {
 	outDir   string
 	quickS   int
@@ -184,55 +194,74 @@ func (fc *FnCtx) solveAll(o solveOpts, tag string) {
 		pending++
 	}
 	if pending > 0 {
-		batch := base + ".batch.smt2"
-		os.WriteFile(batch, []byte("(set-option :timeout 3000)\n"+fc.renderBatch(3000)), 0o644)
-		start := time.Now()
-		ctx, cancel := context.WithTimeout(context.Background(), time.Duration(60+3*pending)*time.Second)
-		cmd := exec.CommandContext(ctx, "z3-new", fmt.Sprintf("smt.random_seed=%d", o.seed), batch)
-		var out bytes.Buffer
-		cmd.Stdout = &out
-		cmd.Stderr = &out
-		cmd.Run()
-		cancel()
-		el := time.Since(start).Seconds()
-		// parse: lines "@@ name" followed by verdict
-		lines := strings.Split(out.String(), "\n")
-		verd := map[string]string{}
-		for i := 0; i < len(lines); i++ {
-			l := strings.TrimSpace(strings.Trim(strings.TrimSpace(lines[i]), "\""))
-			if strings.HasPrefix(l, "@@ ") && i+1 < len(lines) {
-				verd[l[3:]] = strings.TrimSpace(lines[i+1])
-			}
+		// the obligations are split into chunks; every chunk script contains the whole function but only checks its own obligations
+		nchunks := pending/12 + 1
+		if nchunks > 8 {
+			nchunks = 8
 		}
-		nb := 0
-		for _, ob := range fc.obls {
-			if ob.Result != nil {
-				continue
-			}
-			v := verd[ob.Name]
-			if (v == "unsat" && !ob.Cover) || (ob.Cover && (v == "sat" || v == "unknown")) {
-				if ob.Cover {
-					v = "sat"
+		var mu sync.Mutex
+		var cwg sync.WaitGroup
+		for c := 0; c < nchunks; c++ {
+			cwg.Add(1)
+			go func(c int) {
+				defer cwg.Done()
+				globalSem <- struct{}{}
+				defer func() { <-globalSem }()
+				batch := fmt.Sprintf("%s.batch%d.smt2", base, c)
+				os.WriteFile(batch, []byte("(set-option :timeout 2000)\n"+fc.renderBatch(c, nchunks)), 0o644)
+				start := time.Now()
+				ctx, cancel := context.WithTimeout(context.Background(), time.Duration(30+3*pending/nchunks)*time.Second)
+				args := []string{fmt.Sprintf("smt.random_seed=%d", o.seed), batch}
+				if c%2 == 1 {
+					args = append([]string{"smt.auto_config=false"}, args...)
 				}
-				ob.Result = &SolveResult{Verdict: v, Solver: "z3-new(batch)"}
-				nb++
-			}
-		}
-		if nb > 0 {
-			per := el / float64(nb)
-			for _, ob := range fc.obls {
-				if ob.Result != nil && ob.Result.Solver == "z3-new(batch)" {
-					ob.Result.TimeS = per
+				cmd := exec.CommandContext(ctx, "z3-new", args...)
+				var out bytes.Buffer
+				cmd.Stdout = &out
+				cmd.Stderr = &out
+				cmd.Run()
+				cancel()
+				el := time.Since(start).Seconds()
+				lines := strings.Split(out.String(), "\n")
+				verd := map[string]string{}
+				for i := 0; i < len(lines); i++ {
+					l := strings.TrimSpace(strings.Trim(strings.TrimSpace(lines[i]), "\""))
+					if strings.HasPrefix(l, "@@ ") && i+1 < len(lines) {
+						verd[l[3:]] = strings.TrimSpace(lines[i+1])
+					}
 				}
-			}
+				mu.Lock()
+				defer mu.Unlock()
+				var mine []*Obligation
+				for _, ob := range fc.obls {
+					if ob.Result != nil {
+						continue
+					}
+					v, ok := verd[ob.Name]
+					if !ok {
+						continue
+					}
+					if (v == "unsat" && !ob.Cover) || (ob.Cover && (v == "sat" || v == "unknown")) {
+						if ob.Cover {
+							v = "sat"
+						}
+						ob.Result = &SolveResult{Verdict: v, Solver: "z3-new(batch)"}
+						mine = append(mine, ob)
+					}
+				}
+				for _, ob := range mine {
+					ob.Result.TimeS = el / float64(len(mine))
+				}
+				if !o.keep {
+					os.Remove(batch)
+				}
+			}(c)
 		}
-		if !o.keep {
-			os.Remove(batch)
-		}
+		cwg.Wait()
 	}
 	// stragglers
 	var wg sync.WaitGroup
-	sem := make(chan struct{}, 5)
+	sem := make(chan struct{}, 4)
 	for i, ob := range fc.obls {
 		if ob.Result != nil {
 			continue
